@@ -51,6 +51,7 @@ type MemoCase struct {
 	Preempt int        `json:"preempt"`
 	PMean   int        `json:"pmean"`
 	Tape    []uint32   `json:"tape,omitempty"`
+	fine    bool       // generation only: sub-second windows over triples anchored within one second
 }
 
 type memoHarness struct{}
@@ -64,9 +65,22 @@ func genMemoLookup(r *Rand, c *MemoCase, pool []LookupCall, paging bool) MemoOp 
 	op := MemoOp{K: "lookup"}
 	lc := pool[r.Intn(len(pool))]
 	op.L = &lc
-	if r.Chance(0.5) {
+	if r.Chance(0.5) || c.fine {
 		os := OptSpec{}
-		switch r.Intn(4) {
+		k := r.Intn(5)
+		if c.fine && r.Chance(0.7) {
+			k = 4
+		}
+		switch k {
+		case 4:
+			// bounds that differ below one second (anchors T1, T1+250ms, T1+255ms, T1+500ms exist under id "p")
+			fine := []int64{0, 100, 252, 300, 600}
+			lo := T1.UnixNano() + fine[r.Intn(len(fine))]*1e6
+			os.Lo = &lo
+			if r.Bool() {
+				hi := T1.UnixNano() + fine[r.Intn(len(fine))]*1e6
+				os.Hi = &hi
+			}
 		case 0:
 			lo := Anchors[1+r.Intn(3)].UnixNano()
 			os.Lo = &lo
@@ -89,6 +103,23 @@ func (h *memoHarness) Gen(r *Rand, tier string, clean bool) any {
 	for j := range c.U {
 		if r.Chance(0.4) {
 			c.Pre = append(c.Pre, j)
+		}
+	}
+	var fineBase *TSpec
+	if r.Chance(0.4) {
+		// triples anchored within one second, for sub-second windows
+		base := c.U[r.Intn(len(c.U))]
+		fineBase, c.fine = &base, true
+		for _, pi := range []int{2, 9, 10, 11} {
+			nt := TSpec{base[0], pi, base[2]}
+			dup := false
+			for _, x := range c.U {
+				dup = dup || tripleKey(x.Triple()) == tripleKey(nt.Triple())
+			}
+			if !dup {
+				c.U = append(c.U, nt)
+				c.Pre = append(c.Pre, len(c.U)-1)
+			}
 		}
 	}
 	c.NH = 1
@@ -120,7 +151,14 @@ func (h *memoHarness) Gen(r *Rand, tier string, clean bool) any {
 			}
 		}
 	}
-	for len(pool) < 3 {
+	if fineBase != nil {
+		b := *fineBase
+		pool = []LookupCall{{M: MTriplesS, S: b[0], P: b[1], O: b[2]}, {M: MTriples, S: b[0], P: b[1], O: b[2]}, {M: MPredsS, S: b[0], P: b[1], O: b[2]}}
+		if r.Bool() {
+			pool = pool[:1+r.Intn(2)]
+		}
+	}
+	for len(pool) < 3 && fineBase == nil {
 		u := c.U[r.Intn(len(c.U))]
 		m := r.Intn(NumLookups)
 		if r.Chance(0.3) {
